@@ -131,6 +131,17 @@ class Struct:
         return f'{self.ty or "S"}{self.fields}'
 
 
+class SymEnum:
+    """an enum value whose discriminant is a solver term (payload-free use only: fields read as opaque)"""
+
+    def __init__(self, ty, tag):
+        self.ty = ty
+        self.tag = tag
+
+    def __repr__(self):
+        return f'SymEnum({self.ty},{self.tag})'
+
+
 class Ref:
     def __init__(self, addr, path=()):
         self.addr = addr
@@ -424,6 +435,8 @@ class Exec:
             b = self.read(st, place[1])
             if isinstance(b, Opaque):
                 return b
+            if isinstance(b, SymEnum):
+                return Opaque('payload of symbolic enum')
             if isinstance(b, Slice):      # Box<[T]>.0 / Unique.pointer / NonNull.pointer projections: identity
                 return b
             if isinstance(b, (Struct, Enum)):
@@ -437,6 +450,8 @@ class Exec:
             raise Unsupported(f'field of {b} place={place}')
         if k == 'downcast':
             b = self.read(st, place[1])
+            if isinstance(b, SymEnum):
+                return b
             if isinstance(b, Enum):
                 if b.variant != place[2]:
                     return Opaque(f'downcast {b.variant} as {place[2]}')
@@ -467,6 +482,8 @@ class Exec:
                 return Opaque('field of scalar')
             if isinstance(v, Slice):
                 continue
+            if isinstance(v, SymEnum):
+                return Opaque('payload of symbolic enum')
             v = v.fields[p] if p < len(v.fields) else Opaque('oob')
         return v
 
@@ -684,6 +701,8 @@ class Exec:
         return Opaque(f'rvalue {s[:60]}')
 
     def discriminant(self, v):
+        if isinstance(v, SymEnum):
+            return v.tag
         if isinstance(v, Enum):
             if v.variant in ORDERING and (v.ty in (None, 'Ordering')):
                 return z3.BitVecVal(ORDERING[v.variant], 8)
